@@ -359,6 +359,21 @@ def run(chk):
                 t[pos] = tok
                 mod = lines[:li] + ["   " + "   ".join(t)] + lines[li + 1:]
                 rej_jobs.append((idx, "read-block:%s" % ("key" if pos < (2 if blk in MATRIX_BLOCKS else 1) else "value"), tok, cli.config_block(0, 2, 1, 0, 0, 0, 1) + "\n".join(mod), True, blk))
+                pass
+            # keys that overflow the integer type the reader uses (the property's "overflow" for a key token): beyond INT_MAX, and 2^32 + the original key
+            # (matrix blocks parse their indices as 64-bit Eigen::Index: an index beyond INT_MAX is there just an index outside the matrix, i.e. an unknown key)
+            keycand = [c for c in cand if c[1] < 1 and c[2] not in MATRIX_BLOCKS]
+            for mk in ("2147483648", "-2147483649", "99999999999", "18446744073709551617", "wrap"):
+                li, pos, blk = rnd.choice(keycand)
+                t = lines[li].split("#")[0].split()
+                try:
+                    tok = str(2 ** 32 + int(t[pos])) if mk == "wrap" else mk
+                except ValueError:
+                    continue
+                t[pos] = tok
+                mod = lines[:li] + ["   " + "   ".join(t)] + lines[li + 1:]
+                rej_jobs.append((idx, "read-block:key", "integer-overflow(%s)" % ("2^32+key" if mk == "wrap" else mk), cli.config_block(0, 2, 1, 0, 0, 0, 1) + "\n".join(mod), True, blk))
+            for tok in BAD_TOKENS:
                 # the same token in a block that is not read: no effect
                 foreign = text + "Block NOTREAD\n   1   %s\n   %s   2.0\n" % (tok, tok)
                 rej_jobs.append((idx, "foreign-block", tok, cli.config_block(0, 2, 1, 0, 0, 0, 1) + foreign, False, "NOTREAD"))
